@@ -44,7 +44,7 @@ CHECKS = {
          "DESIGN.md section 3, C14"),
  "C15": ("E4 textsweep", "exploration",
          "bounded-exhaustive exploration of all short texts over a line alphabet vs. a direct implementation of the stated rule; round trip with an independent SHA-256",
-         "(a) every text of <=4 (quick) / <=5 (thorough) lines over a 16-line alphabet x {LF, CRLF, unterminated last line}: get_grammar_hash equals the reference rule; (b) for every accepted source of the corpus (repository examples, G(2,2,3,2), in up to 7 layouts) the emitted text begins with a // header containing the digest and get_grammar_hash(generate(src)) == R-sha256(src); (c) distinct sources carry distinct stored digests.",
+         "(a) every text of <=5 (quick) / <=6 (thorough) lines over a 19-line alphabet x {LF, CRLF, unterminated last line}: get_grammar_hash equals the reference rule; (b) for every accepted source of the corpus (repository examples, G(2,2,3,2), in up to 7 layouts) the emitted text begins with a // header containing the digest and get_grammar_hash(generate(src)) == R-sha256(src); (c) distinct sources carry distinct stored digests.",
          "a line ends at LF or CRLF; R-sha256 is checked against FIPS vectors at start-up.",
          "DESIGN.md section 3, C15"),
  "C16": ("E4 textsweep", "exploration",
@@ -94,7 +94,7 @@ CHECKS = {
          "DESIGN.md section 3, C17"),
  "C18": ("E6 osetmc", "model_checking",
          "explicit-state model checking (stateright BFS to fixpoint) of the real Oset against a BTreeSet reference",
-         "Every history of insert/extend/from_iter/new/default/clone over a 6- (quick) or 8-element (thorough) domain, with all argument sequences up to length 4 / 5 (duplicates, unsorted), is covered because the search closes: the real kiki::Oset object is the model-checker state. Per-state oracle: iteration by value / by reference / through Deref, strict order, contains; per-pair oracle over all reached objects: ==, cmp, partial_cmp, Hash are functions of the element sets and cmp is a total order.",
+         "Every history of insert/extend/from_iter/new/default/clone over a 7- (quick) or 8-element (thorough) domain, with all argument sequences up to length 4 / 5 (duplicates, unsorted), is covered because the search closes: the real kiki::Oset object is the model-checker state. Per-state oracle: iteration by value / by reference / through Deref, strict order, contains; per-pair oracle over all reached objects: ==, cmp, partial_cmp, Hash are functions of the element sets and cmp is a total order.",
          "std BTreeSet is the reference; four element types stand for any Ord type; stateright 0.31 explores the state graph.",
          "DESIGN.md section 3, C18"),
 }
